@@ -3,6 +3,7 @@
 -- the hand-written model of Winter/Model/Fri.lean (`Opts.new?`, `numFriLayers`) for all arguments.
 import Winter.Model.Fri
 import Winter.Gen.FriOpts
+import Winter.Gen.FriPos
 import WinterProofs.Lemmas.GenTactic
 
 namespace C15G
@@ -123,5 +124,124 @@ theorem gen_num_fri_layers_eq_model (o : Opts) (d N : Nat) (hd : d < 18446744073
     · intro h; exact h.1
     · intro h
       exact ⟨h, loop_ok _ _ o.two_le N d 0 64 hd64 (by omega)⟩
+
+/-! ## fri/src/folding/mod.rs `fold_positions`, fri/src/utils.rs `map_positions_to_indexes` (Winter/Gen/FriPos.lean) -/
+
+theorem foldLoop_eq (m : Nat) : ∀ (ps acc : List Nat),
+    Gen.FriPos.fold_positions.for1 m ps acc = ps.foldl (foldStep m) acc := by
+  intro ps
+  induction ps with
+  | nil => intro acc; simp [Gen.FriPos.fold_positions.for1]
+  | cons p t ih =>
+    intro acc
+    rw [Gen.FriPos.fold_positions.for1]
+    unfold_gen Gen.FriPos
+    rw [ih, List.foldl_cons]
+    congr 1
+    unfold foldStep
+    by_cases hc : acc.contains (p % m) = true <;> simp
+
+theorem foldLoop_ok (m : Nat) : ∀ (ps acc : List Nat),
+    Gen.FriPos.fold_positions.for1_ok m ps acc = true ↔ (ps = [] ∨ m ≠ 0) := by
+  intro ps
+  induction ps with
+  | nil => intro acc; simp [Gen.FriPos.fold_positions.for1_ok]
+  | cons p t ih =>
+    intro acc
+    rw [Gen.FriPos.fold_positions.for1_ok]
+    unfold_gen Gen.FriPos
+    simp only [Bool.and_eq_true, decide_eq_true_eq, ih, reduceCtorEq, false_or, ne_eq]
+    constructor
+    · exact fun h => h.1
+    · exact fun h => ⟨h, Or.inr h⟩
+
+/-- ★ `fold_positions` (regenerated; the de-duplicating `for` loop as structural recursion) IS the model's
+    `foldPositions` for every folding factor `≠ 0`: same list, and the model's `none` (remainder by a zero target
+    domain size) exactly when the regenerated no-panic condition fails -/
+theorem gen_fold_positions_eq_model (ps : List Nat) (d f : Nat) (hf : f ≠ 0) :
+    foldPositions ps d f =
+      if Gen.FriPos.fold_positions_ok ps d f then some (Gen.FriPos.fold_positions ps d f) else none := by
+  unfold foldPositions
+  unfold_gen Gen.FriPos
+  simp only [foldLoop_eq, foldLoop_ok, Bool.and_eq_true, decide_eq_true_eq]
+  by_cases hm : d / f = 0
+  · cases ps with
+    | nil => simp [hm, hf]
+    | cons p t => simp [hm, hf]
+  · simp [hm, hf]
+
+/-- the model is more lenient than the code where no caller goes: with a zero folding factor the Rust function
+    divides by zero before the loop (even for no positions), the model answers `some []` -/
+theorem fold_positions_zero_folding_witness :
+    foldPositions [] 8 0 = some [] ∧ Gen.FriPos.fold_positions_ok [] 8 0 = false := by decide
+
+theorem mapLoop_eq (np psz : Nat) : ∀ (ps acc : List Nat),
+    Gen.FriPos.map_positions_to_indexes.for1 np psz ps acc =
+      acc ++ ps.map (fun p => (p % np) * psz + (p - p % np) / np) := by
+  intro ps
+  induction ps with
+  | nil => intro acc; simp [Gen.FriPos.map_positions_to_indexes.for1]
+  | cons p t ih =>
+    intro acc
+    rw [Gen.FriPos.map_positions_to_indexes.for1]
+    unfold_gen Gen.FriPos
+    rw [ih]; simp
+
+theorem mapLoop_ok (np psz : Nat) (hnp : np ≠ 0) : ∀ (ps acc : List Nat),
+    Gen.FriPos.map_positions_to_indexes.for1_ok np psz ps acc = true ↔
+      ∀ p ∈ ps, (p % np) * psz + (p - p % np) / np < 18446744073709551616 := by
+  intro ps
+  induction ps with
+  | nil => intro acc; simp [Gen.FriPos.map_positions_to_indexes.for1_ok]
+  | cons p t ih =>
+    intro acc
+    rw [Gen.FriPos.map_positions_to_indexes.for1_ok]
+    unfold_gen Gen.FriPos
+    simp only [Bool.and_eq_true, decide_eq_true_eq, ih, List.mem_cons, forall_eq_or_imp, ne_eq]
+    have hle : p % np ≤ p := Nat.mod_le p np
+    generalize (p - p % np) / np = q
+    generalize p % np * psz = c
+    constructor
+    · rintro ⟨h, ht⟩; exact ⟨by omega, ht⟩
+    · rintro ⟨h, ht⟩
+      exact ⟨⟨⟨⟨⟨hnp, hle⟩, hnp⟩, by omega⟩, h⟩, ht⟩
+
+/-- ★ `map_positions_to_indexes` (regenerated): whenever the regenerated no-panic condition holds the model
+    returns the regenerated list -/
+theorem gen_map_positions_eq_model (ps : List Nat) (d f np : Nat)
+    (h : Gen.FriPos.map_positions_to_indexes_ok ps d f np = true) :
+    mapPositionsToIndexes ps d f np = some (Gen.FriPos.map_positions_to_indexes ps d f np) := by
+  revert h
+  unfold mapPositionsToIndexes
+  unfold_gen Gen.FriPos
+  simp only [Bool.and_eq_true, decide_eq_true_eq, mapLoop_eq, List.nil_append]
+  by_cases h1 : np = 1
+  · simp [h1]
+  · by_cases h0 : np = 0
+    · simp [h0]
+    · simp [h1, h0]
+
+/-- ★ and that condition holds exactly when there is one partition, or the folding factor and the number of
+    partitions are non-zero and every index fits a `usize` -/
+theorem gen_map_positions_ok_iff (ps : List Nat) (d f np : Nat) :
+    Gen.FriPos.map_positions_to_indexes_ok ps d f np = true ↔
+      (np = 1 ∨ (f ≠ 0 ∧ np ≠ 0 ∧
+        ∀ p ∈ ps, (p % np) * (d / f / np) + (p - p % np) / np < 18446744073709551616)) := by
+  unfold_gen Gen.FriPos
+  simp only [Bool.and_eq_true, decide_eq_true_eq]
+  by_cases h1 : np = 1
+  · simp [h1]
+  · by_cases h0 : np = 0
+    · simp [h0]
+    · simp only [h1, h0, not_false_eq_true, forall_const, ne_eq, false_or, true_and, mapLoop_ok _ _ h0]
+      constructor
+      · rintro ⟨⟨a, _⟩, b⟩; exact ⟨a, b⟩
+      · rintro ⟨a, b⟩; exact ⟨⟨a, trivial⟩, b⟩
+
+/-- the model is more lenient where no caller goes: with zero partitions the Rust function divides by zero
+    before the loop (even for no positions), the model answers `some []` -/
+theorem map_positions_zero_partitions_witness :
+    mapPositionsToIndexes [] 8 2 0 = some [] ∧ Gen.FriPos.map_positions_to_indexes_ok [] 8 2 0 = false := by
+  decide
 
 end C15G
